@@ -1,8 +1,8 @@
+\* Negative configuration: the seeded fault "nowrite" of Persist.tla must violate WriteThrough.
 SPECIFICATION Spec
 CONSTANTS
     Deep = FALSE
     Bug = "nowrite"
     DoEmit = FALSE
-INVARIANTS WriteThrough ReportsRunning TypeOK
-PROPERTIES RefusedChangesNothing RestartRestores CrashAtomic AcceptedEverywhere
+INVARIANTS WriteThrough
 VIEW View
